@@ -122,6 +122,7 @@ func (fr *Frame) checkRequires(st *State, call ssa.CallInstruction, fn *ssa.Func
 		sig = fn.Signature
 	}
 	env := vc.callEnv(fn, sig, ct, args, st, nil, "requires of "+ct.Key)
+	env.lenient = true
 	for _, cl := range ct.Requires {
 		g := env.boolTerm(cl.Expr)
 		vc.oblig(fr, st, "pre", shortName(ct.Key)+"."+cl.Label, "", g, call.Pos())
@@ -179,6 +180,7 @@ func (fr *Frame) applyIfaceContract(st *State, call ssa.CallInstruction, m *type
 	sig := m.Type().(*types.Signature)
 	all := append([]Term{recv}, args...)
 	env0 := vc.callEnv(nil, sig, ct, all, st, nil, "requires of "+ct.Key)
+	env0.lenient = true
 	for _, cl := range ct.Requires {
 		g := env0.boolTerm(cl.Expr)
 		vc.oblig(fr, st, "pre", shortName(ct.Key)+"."+cl.Label, "", g, call.Pos())
